@@ -55,7 +55,9 @@ SldClause(e) ==
   LET M == SumF(e.ps, "m")
       c == MulP(MulP(MulP(Hdr.electron_radius, Hdr.avogadro, 14), e.rho, 14), Sci(1, -8), 14)       \* r_e N_A rho 1e-8
   IN IF ~EOK(e) THEN "WavelengthWitness"
-     ELSE IF ~Num(e.rho_re) \/ ~Num(e.rho_im) THEN (IF e.anynan THEN "ok" ELSE "SldIsNumber")
+     \* a factor that is not tabulated at this energy (NaN) makes the sum NaN: never a finite number without that term
+     ELSE IF e.anynan THEN (IF e.rho_re.k = "nan" \/ e.rho_im.k = "nan" THEN "ok" ELSE "SldIsNaNWhereAFactorIsMissing")
+     ELSE IF ~Num(e.rho_re) \/ ~Num(e.rho_im) THEN "SldIsNumber"
      ELSE IF ~CloseScaled(MulP(e.rho_re.v, M, 14), MulP(c, SumF(e.ps, "f1"), 14), -10, MulP(c, SumAbsF(e.ps, "f1"), 14)) THEN "SldReal"
      ELSE IF ~Close(MulP(e.rho_im.v, M, 14), MulP(c, SumF(e.ps, "f2"), 14), -10) THEN "SldImag"
      ELSE IF "n_re" \notin DOMAIN e THEN "ok"
@@ -80,6 +82,7 @@ F0Clause(e) ==
   IF e.at0.k # "num" \/ Gt(Abs(Sub(e.at0.v, FromInt(e.z - e.q))), Sci(5, -2)) THEN "F0AtZeroIsElectronCount"
   ELSE IF e.beyond.k # "nan" THEN "F0BeyondRangeIsNaN"
   ELSE IF e.inside.k # "num" \/ e.inside.v.s <= 0 \/ Gt(e.inside.v, Add(FromInt(e.z - e.q), One)) THEN "F0InsideRangeIsFinite"
+  ELSE IF "qkept" \in DOMAIN e /\ (~e.qkept \/ e.again # e.inside) THEN "F0LeavesItsArgumentAlone"       \* second call on the same array = first
   ELSE IF "edge" \in DOMAIN e /\ e.edge.k # "num" THEN "F0AtRangeEndIsFinite"       \* Q = 24 pi is inside the closed range
   ELSE "ok"
 KClause == IF Close(HC, Mul(Mul(Hdr.consts.plancks_constant, Hdr.consts.speed_of_light), Sci(1, 7)), -13) THEN "ok" ELSE "HCWitness"
